@@ -1,4 +1,5 @@
 """Per-property drivers: which engines/rules decide which property."""
+import os
 from . import frontend as fe
 
 
@@ -228,6 +229,8 @@ def c08(chk, thorough):
     offsets.dead_input(chk, prog, ['LDAMulticlassStatistics', 'LDAError', 'LDAPrediction', 'LDA'])
     offsets.overwritten_store(chk, prog, ['LDAMulticlassStatistics', 'LDAError', 'LDAPrediction', 'LDA'])
     offsets.argmax_rule(chk, prog, ['LDAPrediction'])
+    offsets.inversion_failure_test(chk, prog, ['LDA'])
+    chk.floor('INV.failure-test', 1)
     offsets.per_index_values(chk, prog, ['LDA', 'LDAPrediction', 'LDAError', 'LDAMulticlassStatistics'])
     chk.floor('DF.per-index', 3)
     offsets.sibling_label_arms(chk, prog, ['LDA', 'LDAPrediction', 'LDAError', 'LDAMulticlassStatistics'])
@@ -496,9 +499,25 @@ def c07(chk, thorough):
     matexpr.run(chk, prog)
     accum.run(chk, prog, {'matrix.c', 'vector.c', 'algebra.c'}, {'mlr.c', 'algebra.c'})
     from . import guards
-    guards.kernel_tolerances(chk, prog, {'matrix.c': ['MatrixInversion', 'MatrixTranspose', 'MatrixDotProduct', 'MatrixDVectorDotProduct'],
-                                         'algebra.c': ['OrdinaryLeastSquares'], 'mlr.c': ['MLR', 'MLRPredictY']},
-                             table={}, rule='SV.tolerance', what='routines the MLR fit is composed of (no absolute tolerance on X\'X or its inverse)')
+    # every routine of the loaded units that MLR / MLRPredictY can reach (a solver swapped in later is covered without being listed)
+    reach = {}
+    todo = ['MLR', 'MLRPredictY', 'OrdinaryLeastSquares']
+    seen_ = set()
+    while todo:
+        nm_ = todo.pop()
+        f_ = prog.funcs.get(nm_)
+        if nm_ in seen_ or f_ is None or f_.body is None:
+            continue
+        seen_.add(nm_)
+        reach.setdefault(os.path.basename(f_.file), []).append(nm_)
+        todo += [cn for cn, _ in f_.calls]
+    for must in (('matrix.c', 'MatrixInversion'), ('matrix.c', 'MatrixDVectorDotProduct'), ('algebra.c', 'OrdinaryLeastSquares'), ('mlr.c', 'MLR'), ('mlr.c', 'MLRPredictY')):
+        if must[1] not in reach.get(must[0], []) and must[1] in prog.funcs:
+            reach.setdefault(must[0], []).append(must[1])
+    chk.extra['routines_reached_by_the_fit'] = {k: sorted(v) for k, v in reach.items()}
+    guards.kernel_tolerances(chk, prog, reach,
+                             table={k_: v_ for k_, v_ in guards.KERNEL_TOLERANCE_TABLE.items() if k_[0] == 'MatrixColAverage'},
+                             rule='SV.tolerance', what='routines the MLR fit can reach (no absolute tolerance on X\'X, its inverse or the solve)')
     for r_, fl in (('MLR.design', 2), ('MLR.per-response', 1), ('MLR.predict', 2), ('MLR.residual', 1), ('MLR.r2-sdec', 3), ('MX.definition', 3),
                    ('ACC.zeroed', 3)):
         chk.floor(r_, fl)
